@@ -138,8 +138,8 @@ impl HeaderAction for HeaderDefaultAction {
     //@@ fn src/filter/header_action/header_default.rs :: impl HeaderAction for HeaderDefaultAction / fn filter
     //@| forlabel 0: it
     //@| loopbefore 0: let ghost h0 = headers@;
-    //@| loop 0: invariant_except_break !found,
-    //@|     invariant headers@ == h0, iter_ref_ok(it.history@, it.index@, it.snapshot@.remaining(), h0),
+    //@| loop 0: invariant headers@ == h0, iter_ref_ok(it.history@, it.index@, it.snapshot@.remaining(), h0),
+    //@|         found ==> has(hsview(h0), self.name@),
     //@|         !found ==> forall|i: int| 0 <= i < it.index@ ==> !ci(#[trigger] hsview(h0)[i].0, self.name@),
     //@|     ensures found == has(hsview(h0), self.name@), headers@ == h0,
     //@| before `found = true;`: proof { assert(hsview(h0)[it.index@ as int].0 == header.name@); }
